@@ -134,7 +134,9 @@ type Sim struct {
 	remoteChecks                 int
 	resurrections                int
 	wseqChecks                   int
-	forceSet                     []*simTable                    // table set of the next RunTxn (nested transactions)
+	forceSet                     []*simTable // table set of the next RunTxn (nested transactions)
+	forcedMore                   []forcedOp  // further operations of the forced transaction
+	collapses                    int
 	forced                       *forcedOp                      // the next RunTxn performs exactly this operation and commits
 	zombies                      []statedb.ChangeIterator[*Obj] // iterators created in transactions that aborted (kept reachable, not closed)
 	gcChecks                     int
@@ -707,6 +709,13 @@ func (s *Sim) finishedHandleOps(what string, wtxn statedb.WriteTxn, t *simTable)
 
 // RunTxn runs one random write transaction.
 func (s *Sim) RunTxn(i int) {
+	if s.forceSet == nil && s.forced == nil && s.O.Watches > 0 && s.open == nil && s.Rng.IntN(30) == 0 {
+		for _, t := range s.Tabs {
+			if t.schema.Wide && !s.Failed {
+				s.collapseMacro(i, t)
+			}
+		}
+	}
 	what := fmt.Sprintf("t%d", i)
 	// table set
 	var set []*simTable
@@ -756,9 +765,18 @@ func (s *Sim) RunTxn(i int) {
 	nops := s.Rng.IntN(s.O.MaxOps + 1)
 	s.bias = []string{"", "grow", "grow", "shrink"}[s.Rng.IntN(4)]
 	if s.forced != nil {
-		// directed single-operation transaction (macro steps)
+		// directed transaction of one (or a few) given operations, with nothing in between (macro steps)
 		nops = 0
 		s.writeOp(what, wtxn, set[0], working[set[0]], true)
+		first := s.forced
+		for k := range s.forcedMore {
+			if s.Failed {
+				break
+			}
+			s.forced = &s.forcedMore[k]
+			s.writeOp(what, wtxn, set[0], working[set[0]], true)
+		}
+		s.forced = first
 	}
 	if s.forced == nil {
 		for _, t := range set {
@@ -957,6 +975,7 @@ func (s *Sim) Finish(nontrivial bool) {
 	s.R.Count("aborts", int64(s.aborts))
 	s.R.Count("retained_wtxn_sequences_reranged", int64(s.wseqChecks))
 	s.R.Count("remote_queries_compared", int64(s.remoteChecks))
+	s.R.Count("prefix_key_collapse_macros", int64(s.collapses))
 	s.R.Count("dead_objects_resurrected_under_the_collector", int64(s.resurrections))
 	if s.R.WantSample() {
 		tail := s.Log
@@ -997,4 +1016,58 @@ func (s *Sim) Recover() {
 		}
 		s.R.Violation("panic/"+msg[:min(60, len(msg))], s.Idx, map[string]any{"panic": msg, "history": tail})
 	}
+}
+
+// collapseMacro (wide schema, watch histories): the empty key is a prefix of every other key; with all other keys under one
+// first byte the root of the primary index holds that key and has a single inner child. Watch channels of that child's prefix and
+// of absent keys below it are taken, and then ONE transaction deletes the prefix key (the child moves up into the root's place)
+// and inserts below the child, with no query in between.
+func (s *Sim) collapseMacro(i int, t *simTable) {
+	one := func(k int, ops ...forcedOp) {
+		if s.Failed {
+			return
+		}
+		s.forceSet, s.forced, s.forcedMore = []*simTable{t}, &ops[0], ops[1:]
+		s.RunTxn(20000 + i*200 + k)
+		s.forceSet, s.forced, s.forcedMore = nil, nil, nil
+	}
+	k := 0
+	for _, id := range sortedKeys(t.committed.Objs) {
+		if len(id) > 0 && id[0] != 'a' {
+			k++
+			one(k, forcedOp{42, []byte(id)})
+		}
+	}
+	if _, ok := t.committed.Objs[""]; !ok {
+		k++
+		one(k, forcedOp{0, []byte{}})
+	}
+	var absent []byte
+	present := 0
+	for _, c := range t.schema.IDAlphabet {
+		if _, ok := t.committed.Objs["a"+string(c)]; ok {
+			present++
+		} else if absent == nil {
+			absent = []byte{'a', c}
+		}
+	}
+	for _, c := range t.schema.IDAlphabet {
+		if present >= 2 {
+			break
+		}
+		if _, ok := t.committed.Objs["a"+string(c)]; !ok && string([]byte{'a', c}) != string(absent) {
+			k++
+			one(k, forcedOp{0, []byte{'a', c}})
+			present++
+		}
+	}
+	if s.Failed || absent == nil {
+		return
+	}
+	what := fmt.Sprintf("m%d", i)
+	s.Logf("%s collapse macro on %s: watches below the single child of the root, then Delete('') + Insert(%x) in one transaction", what, t.name, absent)
+	s.takeWatchProbes(what+" snapshot", s.DB.ReadTxn(), t, t.committed, true, "", []Probe{
+		{Index: "id", Kind: "prefix", Key: "a"}, {Index: "id", Kind: "get", Key: string(absent)}, {Index: "id", Kind: "list", Key: string(absent)}, {Index: "id", Kind: "prefix", Key: string(absent)}})
+	s.collapses++
+	one(k+1, forcedOp{42, []byte{}}, forcedOp{0, absent})
 }
